@@ -189,6 +189,7 @@ impl NaRec {
                     RespDatum::Chr(s) => resp.data(Character(&s[..])),
                     RespDatum::Expr(s) => resp.data(Expression(&s[..])),
                     RespDatum::BigBlock(n) => resp.data(Arbitrary(crate::rec::big_block(*n))),
+                    RespDatum::ZeroBlock(n) => resp.data(Arbitrary(crate::rec::zero_block(*n))),
                     RespDatum::ManyU8(n) => {
                         for i in 0..*n {
                             resp.data((i % 251) as u8);
